@@ -13,7 +13,7 @@ EXPLANATION = ("H1 panic-source cone over the MIR call graph (resolved callees, 
                "a cycle through several functions by a depth parameter compared with a constant before the recursive call; H3 on the paths of the TLV parser an `Incomplete` that stems from a "
                "parser applied to a take(len)-bounded content slice (or the cursor walking it) is never what the function returns - converted at the call, in the callee under `depth > 0` "
                "(decided by induction over the nesting), or both; H4 a decode error "
-               "leaves the driver loop with Err (dropping all reply senders); H5 a frame that has arrived completely is delivered or rejected, "
+               "leaves the driver loop with Err (dropping all reply senders): with the answer of the transport's stream fixed to Some(Err(e)) the select! hands it to the response arm and every path of the arm on it returns Err; H5 a frame that has arrived completely is delivered or rejected, "
                "never awaited: the frame decoder's path rules (shared with C06 G1 / G2) and, in the default and the gssapi configuration, "
                "Decoder::decode on a connection without a security layer answers what the frame decoder answers - a test of its own may say "
                "Ok(None) only for buffers too short to hold any complete element (rules/wrapper.py); H7 (C04 L6) the one-operation driver hands the connection back, and so stops decoding, only after the pending operation was answered; H8 what is and is not an LDAPMessage envelope: the frame decoder interpreted exactly on literal element trees - a well-formed envelope (universal constructed SEQUENCE of messageID 0..maxInt, protocolOp, controls [0] OPTIONAL) is delivered with the ID and operation it holds, each single-field mutation (class, tag number or form of the outer element; an element in front of the message ID; the ID missing, of another class / tag / form, empty, negative or too wide; a primitive controls element) is answered with an error.  Not decided: memory exhaustion on huge announced lengths; "
@@ -193,22 +193,28 @@ def run(ctx):
         n_try += check_inner_incomplete(ctx, f, p, may_incomplete)
     ctx.floor('H3', 'propagating parser calls examined in the TLV parser', n_try, 1)
 
-    # ---- H4 decode error ends the connection
-    L = C.loop
-    rb = resp['bindings'][0][0]
-    ms = [n for n, c in walk(resp['body']) if n['k'] == 'Match' and hirq.local_of(n['scrut']) == rb]
-    ctx.add('H4.stream-result-match', 'response arm', loc(resp['body']), len(ms) == 1, 'expected one match on the stream result')
-    for m in ms:
-        for a in m['arms']:
-            pv = hirq.pat_variant(a['pat'])
-            inner = a['pat']['pats'][0] if a['pat'].get('k') == 'PTupleStruct' and a['pat']['pats'] else None
-            iv = hirq.pat_variant(inner) if inner else None
-            if pv == 'Some' and iv == 'Err':
-                rets = [x for x, _ in walk(a['body']) if x['k'] == 'Ret' and x.get('e') and x['e']['k'] == 'Call' and hirq.short_def(x['e']['f'].get('def', '')) == 'Err']
-                ctx.add('H4.decode-error-returns-err', 'Some(Err(_))', loc(a['body']), bool(rets) and hirq.diverges(a['body']),
-                        'a decode / read error does not make the driver return Err')
-            if pv == 'None':
-                ctx.add('H4.eof-leaves-loop', 'None', loc(a['body']), hirq.diverges(a['body']), 'end of stream does not leave the driver loop')
+    # ---- H4 decode error ends the connection.  A path rule over what the driver loop does with the transport's answer - not over how
+    # the response arm spells its tests (one `match` with three arms, `let Some(x) = x else { break }` followed by a `match` on the
+    # Result, `?` on a converted error ...): with the answer of `stream.next()` fixed to Some(Err(e)) the select! hands it to the
+    # response arm (driver.select_answer: the branch's piece of the macro's poll closure interpreted on that answer - a branch pattern
+    # that does not match it would make the macro swallow the error), and every path of the arm on it leaves the loop by returning
+    # Err: the driver, and with it every reply sender, is dropped, so every pending operation observes the end of the connection.
+    # Likewise the end of the stream (None) leaves the loop.
+    import driver, sem
+    SOME_ERR = ('ctor', 'Some', (('ctor', 'Err', (('param', 'E'),)),))
+    r_err = driver.answer_fate(C, 'response', SOME_ERR)
+    ctx.add('H4.decode-error-reaches-the-arm', 'Some(Err(_))', loc(resp['body']), bool(r_err['delivered']) and not r_err['consumed'] and not r_err['unread'],
+            'a decode / read error of the transport (Some(Err(e))) is not handed to the response arm of the driver loop: %s' % (
+                'the arm\'s pattern does not match it, so the select! only switches the branch off for this call and the error is lost' if r_err['consumed']
+                else 'what the select! does with it could not be read off the macro\'s expansion'))
+    for o in r_err['handler'] or []:
+        ctx.add('H4.decode-error-returns-err', 'Some(Err(_))|%s' % o.kind, loc(resp['body']), o.kind == 'ret' and sem.is_err_result(o.val),
+                'a decode / read error does not make the driver return Err: on the answer Some(Err(e)) a path of the response arm ends in `%s`%s' % (
+                    o.kind, (' with ' + absx.fmt(o.val)[:40]) if o.kind == 'ret' else ''))
+    ctx.floor('H4', 'paths of the response arm on a decode / read error', len(r_err['handler'] or []), 1)
+    r_none = driver.answer_fate(C, 'response', driver.NONE)
+    for o in r_none['handler'] or []:
+        ctx.add('H4.eof-leaves-loop', 'None|%s' % o.kind, loc(resp['body']), driver.leaves_driver_loop(C, o), 'end of stream does not leave the driver loop (a path of the response arm on the answer None ends in `%s`)' % o.kind)
 
 
 NOM_ERR = ['Err::Incomplete', 'Err::Error', 'Err::Failure']
